@@ -44,6 +44,12 @@ claim("C18", "other", SA+"edge deletion for identity classification of the sourc
 claim("C20", "other", SA+"analysis of cmd/lz4c type-checked against the tree (scratch module): flag-to-option dataflow with polarity, value sets of the level switch, load sites of flag variables, mode-argument provenance, client typestate over the Writer/Reader lifecycle",
       "Decides that each compress flag reaches the option its usage names with the stated polarity and after parsing, that the configured Writer is the one used, that output files get exactly the input's mode, and that Apply is only called in an accepting state (known finding F24: multi-file compress). The file round trip itself is not decided.",
       "DESIGN.md section 4, C20")
+claim("C03", "other", "static analysis: abstract interpretation of decode_amd64.s in a template-polyhedra domain (exact rational LP, 64-bit wrap model, trace partitioning), structural rules for the portable decoder and the call site",
+      "Every load, store and memmove of the amd64 assembly decoder is proven to stay inside src/dst/dict[0:len] on all paths for the nil/non-nil cases the call site admits, and its result is a negative constant or a cursor within [0, len(dst)]. The portable decoder is covered by structural rules (clipped capacities, recover over the body, sign-only use of the result) and, where armed, by the same prover. arm/arm64 assembly is not analysed.",
+      "DESIGN.md section 4, C03")
+claim("C04", "other", "static analysis: bounds prover obligations on the decoders (offset >= 1 at every distance use, read cursor = end of source on success, dictionary/destination bounds, pending length 0 at loop exit, justified dictionary error exit)",
+      "Decides the error clauses of the block format that are linear facts at identifiable program points of the decoders. Byte-exact output and independence from stale destination bytes are not decided.",
+      "DESIGN.md section 4, C04")
 na("C01", "value-level equality decompress(compress(x)) == x over all byte strings depends on hash-table contents and match arithmetic that no sound static argument in reach can follow; its structural necessary conditions (offsets inside the window, literals flushed to the end, destination contract) are decided under C10 and C11")
 for i in range(1, 21):
     id = "C%02d" % i
